@@ -52,6 +52,9 @@ def parts(tier):
           dict(part="pairing", cfg="asan256", shards=5 if q else 8)]
     if not q:
         ps += [dict(part="rsa", cfg="rsa-pkcs1", shards=4), dict(part="rsa", cfg="rsa-basic", shards=4)]
+    else:
+        # reduced RSA workload on the other two padding builds (two keys; every octet of the encoded message altered)
+        ps += [dict(part="rsa-alt", cfg="rsa-pkcs1", shards=1), dict(part="rsa-alt", cfg="rsa-basic", shards=1)]
     return ps
 
 
@@ -1731,6 +1734,18 @@ class Rsa(Base):
                     top = self.pad == "pss" and b >= nb - 1
                     craft("top-bits-set" if top else "em-allflips", (emi ^ (1 << b)).to_bytes(len(em), "big"), msg, pre, b)
 
+        # ---------------- every octet of the encoded message altered (flip / +1 / 00 / FF), signed here with d
+        if heavy:
+            for pre in (0, 1):
+                msg = self.rbytes(32) if pre else self.rbytes(11)
+                em = self.encode(self.mhash(msg, pre), pre, key)
+                for pos in range(len(em)):
+                    if ctx.quick and ctx.nshards > 1 and (pos % ctx.nshards) != ctx.shard:
+                        continue
+                    o = em[pos]
+                    for v in sorted(set([o ^ (1 << rng.randrange(8)), (o + 1) & 0xFF, 0x00, 0xFF]) - set([o])):
+                        craft("em-allbytes", em[:pos] + bytes([v]) + em[pos + 1:], msg, pre, [pos, v])
+
         # ---------------- every single-bit flip of one honest signature
         if heavy and last is not None:
             sg, msg, pre = last
@@ -2651,8 +2666,28 @@ def run_pairing(ctx):
     ctx.note("error_codes_seen", {str(k): v for k, v in R.err_codes.items()})
 
 
+def run_rsa_alt(ctx):
+    R = PX(ctx.cfg)
+    w = Rsa(ctx, R)
+    ctx.note("padding", w.pad)
+    if not R.sha256_is_md:
+        ctx.note("skipped", "MD_MAP is not SHA-256 in this build")
+        return
+    for i, bits in enumerate([768, 1024]):
+        key = w.keygen(bits)
+        if key is None:
+            continue
+        if i == 0 and w.pad == "basic":
+            w.directed_overlong(key)        # fatal on some trees: first
+        w.run_key(key, heavy=(i == 0))
+    ctx.note("functions_exercised", sorted(k for k in R.fn_seen if k.startswith("cp_")))
+    ctx.note("error_codes_seen", {str(k): v for k, v in R.err_codes.items()})
+
+
 def run(ctx, part):
-    if part == "ecdsa":
+    if part == "rsa-alt":
+        run_rsa_alt(ctx)
+    elif part == "ecdsa":
         run_ecdsa(ctx)
     elif part == "ec":
         run_ec(ctx)
